@@ -11,7 +11,7 @@ IR = "ppci/ir.py"
 # instruction classes that never occur in a finished module's blocks
 NOT_IN_BLOCKS = {
     "Instruction": "abstract", "LocalValue": "abstract", "FinalInstruction": "abstract", "JumpBase": "abstract",
-    "Parameter": "function parameter, serialized with the subroutine", "Undefined": "reader-side placeholder for forward references",
+    "Parameter": "function parameter, serialized with the subroutine",
     "JumpTable": "constructor raises NotImplementedError",
 }
 # keys that need not be read, with reason
@@ -159,6 +159,7 @@ def run(ctx):
             ctx.ob("C16.R3", F + ":construct_variable", "variable key %r reaches ir.Variable.%s" % (key, field), field in names, construct="sink:variable:" + key, detail=str(sorted(names)))
     _types_and_placeholders(ctx)
 
+    _typed_placeholders(ctx)
 
 def _scope_rule(ctx):
     """name resolution must search the innermost scope first (locals shadow
@@ -225,3 +226,27 @@ def _types_and_placeholders(ctx):
     pops = [n for n in _a.walk(rv) if isinstance(n, _a.Assign) and isinstance(n.value, _a.Call) and _l(n.value) == "pop" and g["registry"] and _n(n.value.func.value) == g["registry"]]
     ok = len(rep) == 1 and len(pops) == 1 and _n(rep[0].func.value) == _n(pops[0].targets[0]) and _n(rep[0].args[0]) == rv.args.args[1].arg
     ctx.ob(rid, IO + ":DictReader.register_value", "registering a value takes its placeholder out of the registry and replaces all its uses", ok, construct="patch-on-register")
+
+
+def _typed_placeholders(ctx):
+    """R7: a value that is used before the block that defines it is read (block order need not be dominance order)
+    is represented by an ir.Undefined placeholder until its definition arrives.  ir.Binop / ir.Unop check the types of
+    their operands in the constructor, so a placeholder created for such an operand must carry the instruction's type
+    (the default, ptr, makes `Binop type mismatch ptr != i32`)."""
+    F_ = "ppci/irutils/io.py"
+    ctx.rule("C16.R7", "JSON reader: operands of a binop are looked up with the binop's own type, so that a forward-reference placeholder created for them passes the constructor's type check", floor=2)
+    fn = ctx.fn(F_, "DictReader.construct_instruction")
+    import ast
+    br = None
+    for n in ast.walk(fn):
+        if isinstance(n, ast.If) and " ".join(norm(n.test).split()) in ("itype == 'binop'", 'itype == "binop"'):
+            br = n
+    ctx.need(br is not None, "construct_instruction: binop branch not found")
+    calls = [c for st in br.body for c in ast.walk(st) if isinstance(c, ast.Call) and norm(c.func) == "self.get_value_ref"]
+    tyv = [n for st in br.body for n in ast.walk(st) if isinstance(n, ast.Assign) and isinstance(n.value, ast.Call) and norm(n.value.func) == "self.get_type"]
+    tname = norm(tyv[0].targets[0]) if tyv else None
+    for c in calls:
+        key = norm(c.args[0])
+        ok = tname is not None and any(k.arg == "ty" and norm(k.value) == tname for k in c.keywords)
+        ctx.ob("C16.R7", F_ + ":DictReader.construct_instruction", "binop operand %s is looked up with ty=<the binop's type>" % key, ok, construct="typed-operand:" + key, node=c)
+    ctx.need(len(calls) == 2, "construct_instruction: the two operand lookups of binop not found")
